@@ -11,6 +11,7 @@ import os
 import sys
 
 sys.path.insert(0, os.path.dirname(os.path.abspath(__file__)))
+import math
 import numpy as np
 import common
 import thermal_common as tc
@@ -257,6 +258,33 @@ def run(ctx):
                  tag="real/%dD/%s-%s" % (c.ndim, c.inner, c.outer),
                  sample={"suite": "metamorphic real solves", "ndim": c.ndim, "grid": [c.nr, c.nt, c.nz], "inner": c.inner,
                          "outer": c.outer, "shifts": shifts, "failures": [b[1] for b in bad[:2]]})
+        for what, detail, extra in bad:
+            viol.append((c, what, detail, extra))
+    # every wall kind that divides by or multiplies with a wall property, with a temperature-dependent material, a
+    # field that is not axisymmetric (theta-varying flux / wall temperature) and several steps, so that the wall
+    # properties differ from column to column when the step system is built
+    tdep = [("flux", "fix"), ("flux", "conv"), ("conv", "flux"), ("film", "flux"), ("fix", "flux"), ("flux", "flux"), ("ins", "flux")]
+    for n, (i, o) in enumerate(tdep * (1 if ctx.quick() else 4)):
+        c = tc.gen_case(rng, ndim=2 + n % 2, inner=i, outer=o, steady=False, const_mat=False, nsteps=3)
+        # temperatures between the table knots (500, 1000), where the conductivity has a slope
+        c.T0 = tc.dyadic(rng, 600.0, 800.0)
+        c.T0field = None
+        # fluxes large enough to drive circumferential differences of the order of 100 K through the wall
+        for name, kind in (("inner_data", i), ("outer_data", o)):
+            if kind == "flux":
+                q = getattr(c, name)
+                sc = 100.0 * float(np.min(c.mat_k)) / (c.t * float(np.max(np.abs(q))) + 1e-300)
+                setattr(c, name, q * 2.0 ** round(math.log2(max(sc, 1.0))))
+        try:
+            bad = []
+            for sft in sorted(set([1, rng.randint(1, c.nt - 1)])):
+                bad += [("rotation", m, {"shift": sft}) for m in check_rotation(c, sft)]
+        except (RuntimeError, ValueError) as e:
+            ctx.notes.append("real solve raised (C17 / table range, not C12): %r" % (e,))
+            continue
+        ctx.case(("real-tdep", n, c.ndim, i, o), nontrivial=True, tag="real-tdep/%dD/%s-%s" % (c.ndim, i, o),
+                 sample={"suite": "rotation with temperature-dependent wall properties", "ndim": c.ndim, "inner": i, "outer": o,
+                         "failures": [b_[1] for b_ in bad[:2]]})
         for what, detail, extra in bad:
             viol.append((c, what, detail, extra))
     for n in range(2 if ctx.quick() else 10):
